@@ -253,7 +253,7 @@ def run_schedules(ctx):
 
 def run(ctx):
     run_membership(ctx)
-    n = ctx.n(12, 30)
+    n = ctx.n(12, 100)
     for it in range(n):
         if ctx.out_of_time():
             break
